@@ -34,7 +34,7 @@ impl Property for C14 {
     }
     fn cases(&self, tier: Tier) -> usize {
         match tier {
-            Tier::Quick => 300,
+            Tier::Quick => 800,
             Tier::Thorough => 3000,
         }
     }
